@@ -105,10 +105,11 @@ pub uninterp spec fn feq(a: f64, b: f64) -> bool;        // IEEE ==
 pub uninterp spec fn fcmp(a: f64, b: f64) -> Option<Ordering>;   // IEEE partial order
 pub uninterp spec fn i2f(a: int) -> f64;                 // `as f64` on an integer (round to nearest)
 
+pub open spec fn smap_nonempty(m: vstd::map::Map<SKey, SVal>) -> bool { exists|k: SKey| m.contains_key(k) }
 pub open spec fn truthy(v: SVal) -> bool {
     match v {
         SVal::List(l) => l.len() != 0,
-        SVal::Map(m) => m.dom().len() != 0,
+        SVal::Map(m) => smap_nonempty(m),
         SVal::Int(i) => i != 0,
         SVal::UInt(i) => i != 0,
         SVal::Float(f) => !f_is_zero(f),
